@@ -45,8 +45,6 @@ def run(ch, config, res):
     world = World(ch, cfg, client_impl=config.get("client", "real"), read_size=rsz)
     srv = world.server
     srv.order_variation = True
-    with ch.scope("run"):
-        world.debug = wl.flag("debug", 1, 6)
     forced_lit = None
     with ch.scope("store"):
         if strat is not None:
